@@ -753,6 +753,9 @@ func (env *Env) callExpr(e *CExpr) CVal {
 	case "bytes":
 		s := env.force(arg(0))
 		return CVal{T: env.bsOf(s)}
+	case "ioEOF": // the value of the package-level variable io.EOF
+		et := types.Universe.Lookup("error").Type()
+		return CVal{T: Select(globalState().mem(et), ObjRef(IntLit(int64(extGlobalID("io.EOF"))))), Ty: et}
 	case "iref": // the reference stored in an interface value
 		v := env.force(arg(0))
 		return CVal{T: Acc("iref", v.T)}
